@@ -62,7 +62,7 @@ def record(events, tmp, name="rec.vdo"):
             p.from_viewer(h)
         for t, e in events:
             p.set_ticks(t)
-            data = key_event(e[1], e[2]) if e[0] == "key" else pointer_event(e[1], e[2], e[3])
+            data = (bytes.fromhex(e[1]) if isinstance(e[1], str) else e[1]) if e[0] == "raw" else key_event(e[1], e[2]) if e[0] == "key" else pointer_event(e[1], e[2], e[3])
             err = p.from_viewer(data)
             if err is not None:
                 break
@@ -126,6 +126,7 @@ def dedupe(seq):
 
 
 def judge(events, msgs, script_text, warp):
+    events = [(t, e) for t, e in events if e[0] != "raw"]        # other client messages leave no entry and move no clock
     keys_in = [(1 if e[1] else 0, e[2]) for _t, e in events if e[0] == "key"]
     keys_out = [(m[1], m[2]) for _t, m in msgs if m[0] == "KeyEvent"]
     if keys_in != keys_out:
@@ -148,6 +149,13 @@ def judge(events, msgs, script_text, warp):
             gaps.append(float(line.split(" ")[1]))
     if len(gaps) != len(events):
         return f"{len(gaps)} pause entries for {len(events)} events"
+    # "the recorded gap" is the time that passed between two recorded events (ticks of 0.1 ms: exact at four decimals)
+    prev = 0
+    for i, ((t, e), g) in enumerate(zip(events, gaps)):
+        if abs(g - (t - prev) / 10000.0) > 5.1e-5:
+            return (f"entry #{i} ({e[0]}): {(t - prev) / 10000.0:.4f} s passed since the previous recorded event, the script says "
+                    f"pause {g:.4f}: the replay would not wait the original gap divided by the warp factor")
+        prev = t
     # messages per entry: 1 for a key, (moved ? 1 : 0) + 2 per set button for a pointer event
     counts = []
     mouse = None
@@ -182,12 +190,20 @@ def gen_events(rng, n):
                             rng.randrange(0xA0, 0x3000), rng.choice([0x20AC, 0xFE03, 0xFF67, 0x1F600, 0xFFFF, 0x10FFFF, 1, 27, 127, 0x85, 0x2028])])
             if not representable(k):
                 continue
-            evs.append((t, ("key", rng.choice([0, 1]), k)))
+            evs.append((t, ("key", rng.choice([0, 1, 0, 1, 2, 128, 255]), k)))
         else:
             if rng.random() < 0.5:
                 pos = (rng.choice([0, 65535, rng.randrange(3000)]), rng.choice([0, 65535, rng.randrange(3000)]))
             mask = rng.choice([0, 0, 1, 2, 4, 5, 128, 255, rng.getrandbits(8)])
             evs.append((t, ("ptr", mask, pos[0], pos[1])))
+        if rng.random() < 0.12:
+            # what else a viewer says between two input events (some time after the last one)
+            t += rng.choice([0, 40, 5000, 20000])
+            n = rng.randrange(0, 5)
+            evs.append((t, ("raw", rng.choice([
+                struct.pack("!BxH", 2, n) + b"".join(struct.pack("!i", rng.choice([0, 1, 5, 16, -239, -223])) for _ in range(n)),
+                struct.pack("!BBHHHH", 3, rng.randrange(2), 0, 0, rng.randrange(1, 2000), rng.randrange(1, 2000)),
+                struct.pack("!BxxxI", 6, 3) + b"abc"]))))
     return evs
 
 
@@ -223,6 +239,8 @@ def run(tier, seed, model):
             camp.count("case:" + kind)
             camp.count("key-events", sum(1 for _t, e in events if e[0] == "key"))
             camp.count("pointer-events", sum(1 for _t, e in events if e[0] == "ptr"))
+            camp.count("other-client-messages", sum(1 for _t, e in events if e[0] == "raw"))
+            camp.count("down-flag-not-0-or-1", sum(1 for _t, e in events if e[0] == "key" and e[1] > 1))
             camp.nontrivial.add((kind, ci))
             path, err = record(events, tmp, "rec%d.vdo" % (ci % 8))
             why = None
@@ -233,6 +251,7 @@ def run(tier, seed, model):
                 msgs, rerr = replay_script(path, warp)
                 why = rerr or judge(events, msgs, text, warp)
             if why:
+                events = [(t, ("raw", e[1].hex()) if e[0] == "raw" else e) for t, e in events]
                 small = events if len(events) <= 60 else None
                 camp.oracle_failures.append({"kind": "oracle", "property": "C18",
                                              "case": {"events": small or events[:2000], "warp": warp},
@@ -241,7 +260,7 @@ def run(tier, seed, model):
                     break
                 continue
             if model is not None and kind != "sweep" or (model is not None and ci % 4 == 0):
-                reqs.append(("c18_roundtrip", [[0, t, e[1], e[2]] if e[0] == "key" else [1, t, e[1], e[2], e[3]] for t, e in events]))
+                reqs.append(("c18_roundtrip", [[0, t, e[1], e[2]] if e[0] == "key" else [1, t, e[1], e[2], e[3]] for t, e in events if e[0] != "raw"]))
                 meta.append((ci, kind, text))
         if model is not None:
             for ans, (ci, kind, text) in zip(model.call_many(reqs), meta):
